@@ -50,6 +50,30 @@ INFO = {
                      "moved-from placeholder, the next event panics or the resource is never released", ["C17"]),
     "C18-1": ("C18", "a peer that writes less than the buffer and closes: the FIN behind a short read is never read, no "
                      "Disconnected, the descriptor stays open", ["C18", "C04"]),
+    "C03-2": ("C03", "an inbound connection whose handshake fails (garbage or a truncated upgrade request to a Ws listener, "
+                     "or gone at once): Connected(endpoint, false) is emitted for an accepted endpoint", ["C03", "C17"]),
+    "C04-2": ("C04", "FramedTcp: the peer's last data and its FIN arrive within one readiness event; the read loop stops after "
+                     "the short read, the FIN is never read: no Disconnected, the endpoint stays registered", ["C04", "C18"]),
+    "C05-2": ("C05", "for_each: a signal becomes ready while the network thread is inside the callback; the signal thread "
+                     "uses try_lock on the turn mutex and enters anyway", ["C05"]),
+    "C09-2": ("C09", "receive_timeout restarts its full timeout on every timer command: with timers created/cancelled faster "
+                     "than the 50 ms sampling period the signal thread never re-tests is_running() and the listener does not return",
+              ["C16", "C08", "C09"]),
+    "C12-2": ("C12", "two or more datagrams queued at a connected UDP socket at one readiness event: the receive loop stops "
+                     "after the first short read and the rest stay in the kernel queue", ["C12"]),
+    "C13-2": ("C13", "UDP over IPv6 with a payload of 65508..65527 bytes: the kernel accepts it (no EMSGSIZE), send() reports "
+                     "Sent and the receiver gets it cut to 65507", ["C13", "C12"]),
+    "C06-2": ("C06", "EventSender::clone() copies the timer sequence counter instead of sharing it: two clones scheduling "
+                     "timers that fall on the same instant with equal private counts get equal TimerIds, one event is lost", ["C06", "C08"]),
+    "C10-2": ("C10", "FramedTcp send lock taken per write call (vectored write of prefix+payload): concurrent senders with a "
+                     "frame larger than the free socket buffer interleave", ["C10"]),
+    "C14-2": ("C14", "id generation made a plain load/store and moved out of the registry write lock: two registrations on the "
+                     "same registry at the same instant (connect() from two threads, or connect() racing an accept) get the same id",
+              ["C14"]),
+    "C15-2": ("C15", "for_each_async/enqueue: the cache became a Vec drained with pop(): cached events are replayed newest "
+                     "first", ["C15", "C03"]),
+    "C18-2": ("C18", "a failed inbound handshake (non-upgrade request to a Ws listener): the accepted resource is no longer "
+                     "deregistered, its descriptor stays open and the peer never sees a close; silent", ["C18", "C17"]),
     "C19-1": ("C19", "SocketAddrV6 with non-zero flowinfo/scope_id converted to RemoteAddr: the fields are dropped", ["C19"]),
 }
 
